@@ -64,7 +64,7 @@ Definition ad_keys (d : an_dict) : list string := map fst d.
 Definition scan_one (n : node) (d : an_dict) : an_dict :=
   match an_name n with Some a => ad_set a n d | None => d end.
 
-Fixpoint scan_anchors (dom : node) (d : an_dict) {struct dom} : an_dict :=
+Fixpoint an_scan_anchors (dom : node) (d : an_dict) {struct dom} : an_dict :=
   match dom with
   | NMap _ kvs =>
       (fix go (l : list (node * node)) (d : an_dict) : an_dict :=
@@ -75,7 +75,7 @@ Fixpoint scan_anchors (dom : node) (d : an_dict) {struct dom} : an_dict :=
              let d2 := scan_one v d1 in
              (* "Recurse into complex values": CommentedMap / CommentedSeq only *)
              let d3 := match v with
-                       | NMap _ _ | NSeq _ _ => scan_anchors v d2
+                       | NMap _ _ | NSeq _ _ => an_scan_anchors v d2
                        | _ => d2
                        end in
              go r d3
@@ -84,7 +84,7 @@ Fixpoint scan_anchors (dom : node) (d : an_dict) {struct dom} : an_dict :=
       (fix go (l : list node) (d : an_dict) : an_dict :=
          match l with
          | [] => d
-         | e :: r => go r (scan_anchors e d)
+         | e :: r => go r (an_scan_anchors e d)
          end) els d
   | _ => scan_one dom d
   end.
@@ -316,8 +316,8 @@ Definition common_names (lanc ranc : an_dict) : list string :=
   filter (fun a => match ad_get a lanc with Some _ => true | None => false end) (ad_keys ranc).
 
 Definition resolve_conflicts (l r : node) : outcome (node * node) :=
-  let lanc := scan_anchors l [] in
-  let ranc := scan_anchors r [] in
+  let lanc := an_scan_anchors l [] in
+  let ranc := an_scan_anchors r [] in
   foldM (resolve_step lanc ranc) (common_names lanc ranc) (l, r).
 
 Variable lit : string -> outcome litres.
